@@ -126,3 +126,73 @@ theorem addProvider_g4 (g : Graph) (k : Key) (p : Nat) (deps : List Key) :
   exact ⟨putEdges_eqExc _ _ k deps h1, h2⟩
 
 end Godi.Graph
+
+namespace Godi.Graph
+open Godi.Kahn (Key)
+
+/-- `AddProvider` in terms of `added`: the state handed to the cycle check, and the rollback -/
+def checked (g : Graph) (k : Key) (p : Nat) (deps : List Key) : Graph :=
+  { updateDegrees (added g k p deps) with sortedDirty := true, cycleDirty := true }
+
+def createdBy (g : Graph) (k : Key) (p : Nat) (deps : List Key) : List Key :=
+  (ensureNodes (dropEdges (setProv (insertNode g k) k (some p)) k) deps).2
+
+def rollback (g g6 : Graph) (k : Key) (created : List Key) : Graph :=
+  let g1 := insertNode g k
+  let g7 :=
+    if decide (k ∈ g.nodes) then
+      let g' := { g6 with prov := upd g6.prov k (g1.prov k), ndeps := upd g6.ndeps k (g1.ndeps k) }
+      if decide (k ∈ g1.ekeys) then setEdges g' k (g1.edges k) else delEdges g' k
+    else delEdges (delNode g6 k) k
+  updateDegrees (created.foldl delNode g7)
+
+theorem addProvider_eq (g : Graph) (k : Key) (p : Nat) (deps : List Key) :
+    addProvider g k p deps =
+      (match detectCyclesFrom (checked g k p deps) k with
+       | (g6, .ok) => (g6, .ok)
+       | (g6, r) => (rollback g g6 k (createdBy g k p deps), r)) := by
+  obtain ⟨h4, hc⟩ := addProvider_g4 g k p deps
+  unfold addProvider
+  simp only []
+  rw [show (ensureNodes (delEdges { insertNode g k with prov := upd (insertNode g k).prov k (some p) } k) deps) =
+    ((ensureNodes (delEdges { insertNode g k with prov := upd (insertNode g k).prov k (some p) } k) deps).1,
+     (ensureNodes (delEdges { insertNode g k with prov := upd (insertNode g k).prov k (some p) } k) deps).2) from rfl]
+  simp only [h4, hc]
+  rfl
+
+theorem checked_base_synced (g : Graph) (b : Base g) (k : Key) (p : Nat) (deps : List Key) :
+    Base (checked g k p deps) ∧ Synced (checked g k p deps) ∧
+    (checked g k p deps).edges = upd g.edges k deps ∧
+    (∀ x, x ∈ (checked g k p deps).nodes ↔ x ∈ g.nodes ∨ x = k ∨ x ∈ deps) ∧
+    (checked g k p deps).ekeys = (added g k p deps).ekeys := by
+  have ba := added_base g b k p deps
+  have fr := updateDegreesWith_frame (added g k p deps) (added g k p deps).ekeys
+  refine ⟨setFlags_base _ true true (updateDegreesWith_base _ _ (List.Perm.refl _) ba),
+    setFlags_synced _ true true (updateDegreesWith_synced _ _ (List.Perm.refl _) ba), ?_, ?_, ?_⟩
+  · show (updateDegrees (added g k p deps)).edges = _
+    unfold updateDegrees; rw [fr.2.1]; exact added_edges g b k p deps
+  · intro x
+    show x ∈ (updateDegrees (added g k p deps)).nodes ↔ _
+    unfold updateDegrees; rw [fr.1]; exact added_nodes g b k p deps x
+  · show (updateDegrees (added g k p deps)).ekeys = _
+    unfold updateDegrees; exact fr.2.2.1
+
+/-- ACCEPTED ADD: the digraph update, with all derived fields in sync -/
+theorem addProvider_accepted (g : Graph) (b : Base g) (k : Key) (p : Nat) (deps : List Key)
+    (h : (addProvider g k p deps).2 = .ok) :
+    Base (addProvider g k p deps).1 ∧ Synced (addProvider g k p deps).1 ∧
+    (addProvider g k p deps).1.edges = upd g.edges k deps ∧
+    (∀ x, x ∈ (addProvider g k p deps).1.nodes ↔ x ∈ g.nodes ∨ x = k ∨ x ∈ deps) := by
+  rw [addProvider_eq] at h ⊢
+  obtain ⟨cb, cs, ce, cn, _⟩ := checked_base_synced g b k p deps
+  have hs := detectCyclesFrom_same (checked g k p deps) k
+  generalize detectCyclesFrom (checked g k p deps) k = r at h hs ⊢
+  obtain ⟨g6, res⟩ := r
+  cases res with
+  | ok =>
+    simp only [] at hs ⊢
+    exact ⟨hs.base cb, hs.synced cs, hs.edges.trans ce, fun x => by rw [hs.nodes]; exact cn x⟩
+  | cycle n path => simp at h
+  | fuel => simp at h
+
+end Godi.Graph
